@@ -304,11 +304,6 @@ Proof.
     unfold parse_i32. destruct (nat_str z) as [|c r] eqn:En; [congruence|].
     pose proof (digits_val_head _ _ _ _ Hv) as Hc.
     destruct (Z.eq_dec c 45) as [->|N1]; [lia|]. destruct (Z.eq_dec c 43) as [->|N2]; [lia|].
-    assert (Hb : (let '(neg, body) := match c :: r with
-                                       | 45 :: r0 => (true, r0) | 43 :: r0 => (false, r0) | _ => (false, c :: r)
-                                       end in (neg, body)) = (false, c :: r)).
-    { destruct c as [|q|q]; try reflexivity.
-      do 6 (destruct q as [q|q|]; try reflexivity); lia. }
     destruct c as [|q|q]; try lia.
     do 6 (destruct q as [q|q|]; try (cbn in N1, N2; try congruence; rewrite Hv, Hz; reflexivity)).
 Qed.
